@@ -39,4 +39,29 @@ theorem get?_set {α} (m : Map α) (k k2 : String) (v : α) :
   · subst h; simp [get?_set_self]
   · simp [h, get?_set_ne m k k2 v h]
 
+theorem get?_erase {α} (m : Map α) (k k2 : String) :
+    (m.erase k).get? k2 = if k2 = k then none else m.get? k2 := by
+  induction m with
+  | nil => simp [erase, get?]
+  | cons a r ih =>
+    unfold erase at ih ⊢
+    by_cases e : a.1 = k
+    · have hf : List.filter (fun p : String × α => decide (p.1 ≠ k)) (a :: r) =
+          List.filter (fun p : String × α => decide (p.1 ≠ k)) r := by
+        rw [List.filter_cons]; simp [e]
+      rw [hf, ih]
+      by_cases e2 : k2 = k
+      · simp [e2]
+      · have : ¬ a.1 = k2 := fun x => e2 (by rw [← x, e])
+        simp [e2, get?, this]
+    · have hf : List.filter (fun p : String × α => decide (p.1 ≠ k)) (a :: r) =
+          a :: List.filter (fun p : String × α => decide (p.1 ≠ k)) r := by
+        rw [List.filter_cons]; simp [e]
+      rw [hf]
+      simp only [get?]
+      by_cases e3 : a.1 = k2
+      · have : ¬ k2 = k := fun x => e (by rw [e3, x])
+        simp [e3, this]
+      · simp only [e3, if_false]; exact ih
+
 end Nic.Arb.Map
